@@ -18,9 +18,12 @@ GENERATED = ["Consts"]
 ASSUMPTIONS = [
     "lyd_hash is modelled as injective on (schema, key) (abstract hash keys): 32-bit collisions are outside the model",
     "in the sibling-list model the red-black tree of a system-ordered (leaf-)list is abstracted by its in-order sequence = the "
-    "instance block; stage 2 (Props/C04Rb) proves that for insertion (Rb.insert mirrors rb_insert_node/rb_insert_color, shapes "
-    "compared with the real tree); removal (rb_remove*) is not modelled — the white-box harness checks in-order = sibling order "
-    "and the red-black invariants on the real structure after every op",
+    "instance block; stage 2 (Props/C04Rb) proves that abstraction for insertion AND removal (Rb.insert / Rb.remove mirror "
+    "rb_insert_node/rb_insert_color and rb_remove/rb_remove_color case by case; Rb.find mirrors rb_find; the shapes — colours, "
+    "pre-order, value:serial — the position of the lyds_tree metadata and the sibling order are compared with the real "
+    "structure after EVERY op of insert/unlink scripts, op rbs); the lyds_merge / lyds_pool paths of bulk moves are not in "
+    "the Lean model: the white-box harness checks in-order = sibling order and the red-black invariants on the real "
+    "structure after every op",
     "key types of the generated schemas: int32, uint8, string (type plugins' sort callbacks: numeric / strcmp)",
     "ops outside the model's fragment (lyd_move_nodes of a multi-node list, dup, merge, validate, implicit, opaque nodes "
     "through insert_before/after, second key leaf) are judged by the C-side battery only",
